@@ -18,6 +18,7 @@ Inductive obs :=
 | Obs (ins outs listen connecting : list addr) (peers : list (N * (N * addr))) (own : option addr)
       (nextcid : N) (fatal : bool) (status : list outcome)
       (win_in win_out : nat) (live_in live_out : N)
+| ObsT (status : list outcome) (win_in win_out : nat)   (* controller part as after the previous event *)
 | Same.   (* the observation is identical to the one after the previous event *)
 
 Inductive case := CSched (cf : cfg) (steps : list (sev * obs)).
@@ -107,7 +108,14 @@ Definition obs_ok (s : sys) (o : obs) : bool :=
       && list_eqb outcome_eqb (map t_out (s_threads s)) status
       && Nat.eqb (window_count s Inbound) win_in && Nat.eqb (window_count s Outbound) win_out
       && (live_count s Inbound =? live_in) && (live_count s Outbound =? live_out)
-  | Same => false
+  | _ => false
+  end.
+
+Definition merge (prev o : obs) : obs :=
+  match o, prev with
+  | Same, _ => prev
+  | ObsT st wi wo, Obs a b c d e f g h _ _ _ li lo => Obs a b c d e f g h st wi wo li lo
+  | _, _ => o
   end.
 
 Definition obs_init : obs := Obs [] [] [] [] [] None 0 false [] 0 0 0 0.
@@ -117,7 +125,7 @@ Fixpoint steps_ok (cf : cfg) (s : sys) (prev : obs) (steps : list (sev * obs)) :
   | [] => true
   | (e, o) :: r =>
       let s' := apply_sev cf s e in
-      let o' := match o with Same => prev | _ => o end in
+      let o' := merge prev o in
       obs_ok s' o' && steps_ok cf s' o' r
   end.
 
